@@ -89,7 +89,11 @@ type c13WriteRes struct {
 // packets obfuscated by the REFERENCE, junk as is) either before the threads start or by an
 // injector thread; each of nReaders threads reads perReader packets.
 func c13ConcBody(c *c13Ctx, writers [][]c13Pkt, inbound []c13Pkt, nReaders, perReader int, lateInject bool) {
-	key := c13KeySpec{5, -1}.bytes()
+	c13ConcBodyKey(c, c13KeySpec{5, -1}, writers, inbound, nReaders, perReader, lateInject)
+}
+
+func c13ConcBodyKey(c *c13Ctx, ks c13KeySpec, writers [][]c13Pkt, inbound []c13Pkt, nReaders, perReader int, lateInject bool) {
+	key := ks.bytes()
 	inner := vnet.NewPacketConn("inner", 3000)
 	_ = inner.SetDeadline(time.Time{}) // no deadline; touches the fake once before any thread exists (its lazy initialisation is not thread-safe when free-running)
 	pc, err := WrapPacketConnSalamander(inner, key)
@@ -290,11 +294,35 @@ func c13LateInject(c *c13Ctx) {
 	c13ConcBody(c, writers, inbound, 2, 1, true)
 }
 
+// c13KeyCapacity: one writer and one reader on one socket, for key lengths whose private copy
+// inside the obfuscator has spare capacity in its allocation size class (36 -> 48: 12 spare,
+// 40 -> 48: exactly one salt) or none (64). A key derivation that appends the salt to the stored
+// key writes into memory shared by both directions for the first two; the instrumenter puts a
+// scheduling point after every append/copy of salamander.go and conn.go (mem_points), so the
+// window between that write and the hash is explored.
+var c13CapacityKeys = []c13KeySpec{{36, -1}, {40, -1}, {64, -1}}
+
+func c13KeyCapacity(c *c13Ctx, ks c13KeySpec) {
+	writers := [][]c13Pkt{
+		{{id: "a", payload: c13Fill(40, 0xA0), addr: c13Addr(4001)}, {id: "b", payload: c13Fill(9, 0xB0), addr: c13Addr(4002)}},
+	}
+	inbound := []c13Pkt{
+		{id: "v1", payload: c13Fill(33, 0x10), addr: c13Addr(5001)},
+		{id: "v2", payload: c13Fill(7, 0x20), addr: c13Addr(5002)},
+	}
+	c13ConcBodyKey(c, ks, writers, inbound, 1, 2, false)
+}
+
 func c13Scenarios() []*explore.Scenario {
-	return []*explore.Scenario{
+	var cap []*explore.Scenario
+	for _, ks := range c13CapacityKeys {
+		cap = append(cap, &explore.Scenario{Name: fmt.Sprintf("1w2p-1r2p-key%d", ks.Len), Quick: explore.Bounds{P: 2, FreeSwitch: true}, Thorough: explore.Bounds{P: 4, FreeSwitch: true},
+			Body: func(e *vsched.Exec) { c13KeyCapacity(&c13Ctx{e: e}, ks) }})
+	}
+	return append(cap, []*explore.Scenario{
 		{Name: "2w2p-2r-preloaded", Quick: explore.Bounds{P: 2, FreeSwitch: true}, Thorough: explore.Bounds{P: 3, FreeSwitch: true}, Body: func(e *vsched.Exec) { c13Preloaded(&c13Ctx{e: e}) }},
 		{Name: "1w2p-2r-late-inject", Quick: explore.Bounds{P: 2, FreeSwitch: true}, Thorough: explore.Bounds{P: 3, FreeSwitch: true}, Body: func(e *vsched.Exec) { c13LateInject(&c13Ctx{e: e}) }},
-	}
+	}...)
 }
 
 func TestVerifC13Conc(t *testing.T) {
@@ -313,11 +341,12 @@ func TestVerifC13RaceChild(t *testing.T) {
 		t.Skip("child of TestVerifC13Race")
 	}
 	for i := 0; i < iters; i++ {
-		for j, body := range []func(*c13Ctx){c13Preloaded, c13LateInject} {
+		for j, body := range []func(*c13Ctx){c13Preloaded, c13LateInject,
+			func(c *c13Ctx) { c13KeyCapacity(c, c13CapacityKeys[0]) }, func(c *c13Ctx) { c13KeyCapacity(c, c13CapacityKeys[1]) }} {
 			c := &c13Ctx{}
 			body(c)
 			if len(c.fails) > 0 {
-				fmt.Printf("C13FAIL %s: %s\n", []string{"preloaded", "late-inject"}[j], c.fails[0])
+				fmt.Printf("C13FAIL %s: %s\n", []string{"preloaded", "late-inject", "key36", "key40"}[j], c.fails[0])
 				os.Exit(3)
 			}
 		}
